@@ -34,14 +34,15 @@ def main(tier, seed):
     if len(ops) < 60:
         chk.broken.append('could not parse nl-opcodes.h (%d operators found)' % len(ops))
     EXCEPTIONS = {}     # operator name -> reason it cannot be cycled (none at present)
-    if not chk.violations:      # with a violating operator the missing ':ok' class is the finding itself
-        for name in ops:
-            if name in EXCEPTIONS:
-                continue
-            for fmt in ('text', 'binary'):
-                if 'op:%s:%s:ok' % (name, fmt) not in classes:
-                    chk.broken.append('operator %s of nl-opcodes.h was never written and read back successfully in %s format'
-                                      % (name, fmt))
+    sigs = ' '.join(v['sig'] for v in chk.violations)
+    for name in ops:
+        if name in EXCEPTIONS:
+            continue
+        for fmt in ('text', 'binary'):
+            # an operator that is itself reported as violating is a finding, not a vacuity problem
+            if 'op:%s:%s:ok' % (name, fmt) not in classes and not re.search(r'\b%s\b' % name, sigs):
+                chk.broken.append('operator %s of nl-opcodes.h was never written and read back successfully in %s format'
+                                  % (name, fmt))
     for key, why in (('cycles_text', 'text format never exercised'), ('cycles_binary', 'binary format never exercised'),
                      ('cycles_with_suffixes', 'no file with suffixes cycled'),
                      ('cycles_with_defvars', 'no file with defined variables cycled'),
@@ -50,13 +51,21 @@ def main(tier, seed):
                      ('selftest_wrong_expectations_rejected', 'oracle self-test did not run')):
         if cov.get(key, 0) <= 0:
             chk.broken.append(why)
+    for fam in ('sizes', 'varclasses', 'varbounds', 'conbounds', 'linear', 'defvars', 'functions', 'initvals',
+                'suffix-single', 'suffix-multi', 'names', 'header-options', 'expr-root', 'call-root', 'expr-pairs',
+                'numbers'):
+        if cov.get('models_' + fam, 0) <= 0:
+            chk.broken.append('family %s: no model cycled' % fam)
     want_lattice = (1 << 28 if tier == 'thorough' else 1 << 24)
     nan = cov.get('lattice_nan_skipped', 0)
     for side in ('lattice_text', 'lattice_binary'):
-        if not chk.violations and cov.get(side, 0) < want_lattice - nan:
+        if 'formatter' not in sigs and cov.get(side, 0) < want_lattice - nan:
             chk.broken.append('%s: %d values, expected at least %d' % (side, cov.get(side, 0), want_lattice - nan))
-    if not chk.violations and cov.get('cycles_ok', 0) + cov.get('probe_cycles', 0) != cov.get('cycles', 0):
+    if cov.get('cycles_ok', 0) + cov.get('probe_cycles', 0) + cov.get('cycles_violating', 0) != cov.get('cycles', 0):
         chk.broken.append('cycle accounting mismatch')
+    for c in sorted(classes):
+        if c.startswith('probe:'):
+            cov.setdefault('probe_observations', []).append(c)
 
     vcheck.finalize_classes(chk)
     chk.set('rule',
